@@ -44,8 +44,6 @@ package v0
 //@   assigns nothing
 //@ extern p2p.Switch.Reactor
 //@   assigns nothing
-//@ extern p2p.Switch.StopPeerForError
-//@   assigns except(types, sm)
 //@ extern p2p.IPeerSet.Get
 //@   assigns nothing
 //@ extern log.Logger.Debug
